@@ -655,3 +655,14 @@ def o_burst_order(case, obs):
         if seq and sorted(seq) != list(range(1, n + 1)) and all(kind(o[0]) == "ok" for o in obs):
             return "model %d processed burst elements %s, scheduled 1..%d" % (mi, seq, n)
     return None
+
+
+def o_clock_probe(case, obs):
+    """A request for an event AT the deadline of the step in progress, issued through a Scheduler handle
+    while that step waits in Clock::synchronize (entries Z:<code>:<time published?>), must be refused
+    with InvalidScheduledTime: the step's time is no longer in the future."""
+    for i, (res, t, ents) in enumerate(obs):
+        for e in ents:
+            if e.startswith("Z:") and e.split(":")[1] != "1":
+                return "cmd %d: a scheduling request at the deadline of the step in progress, made during Clock::synchronize, was answered with code %s (0 = accepted)" % (i, e.split(":")[1])
+    return None
